@@ -8,7 +8,8 @@ WT=/tmp/sw/$NAME; OUT=/tmp/sw_out/$NAME
 mkdir -p /tmp/sw /tmp/sw_out; rm -rf "$OUT"; mkdir -p "$OUT"
 git -C /repo worktree remove --force "$WT" 2>/dev/null
 git -C /repo worktree add --detach "$WT" HEAD -q || exit 3
-trap 'git -C /repo worktree remove --force "$WT" 2>/dev/null' EXIT
+# at the end: workers the changed library left behind (they import from this very worktree) are killed, then the worktree goes
+trap 'pkill -9 -f "$WT/" 2>/dev/null; git -C /repo worktree remove --force "$WT" 2>/dev/null' EXIT
 git -C "$WT" apply "$P" || { echo "seed=$NAME : PATCH DOES NOT APPLY"; exit 4; }
 for C in "$@"; do
   MOD="vh.$(echo "$C" | tr 'A-Z' 'a-z')"
